@@ -168,6 +168,8 @@ def quantities_tu(types=('double',), other_types=('float',), classes=None, hash_
             if c in ('ConstitutiveModel',):
                 continue
             s += 'template class PhQ::%s<%s>;\n' % (c, t)
+            if hash_:
+                s += 'template struct std::hash<PhQ::%s<%s>>;\n' % (c, t)
     s += 'namespace PhQ { namespace phqv_use {\n'
     n = 0
     for t in types:
